@@ -776,7 +776,7 @@ func corpusFor(t types.Type, qual types.Qualifier) []string {
 		}
 	case *types.Map:
 		if typeKey(u) == "map[string]interface{}" {
-			return []string{ts + "(" + sample + ")", ts + `{"*": 1, "a": 2}`, ts + `{"a": map[string]interface{}{"#comment": map[string]interface{}{"#text": 1.5, "#seq": 0}}}`, ts + `{"a": map[string]interface{}{"#attr": map[string]interface{}{"x": "v"}, "#seq": 0}}`, ts + `{"a": map[string]interface{}{"#text": "head", "#seq": 0, "b": map[string]interface{}{"#seq": 1}}}`, ts + "(nil)", ts + "{}", ts + `{"k": "v"}`, ts + `{"": "x"}`, ts + `{"!k": "*"}`, ts + `{"a": map[string]interface{}{"k": "v"}}`}
+			return []string{ts + "(" + sample + ")", ts + `{"k": "a\\u003cb", "h": "<&>"}`, ts + `{"*": 1, "a": 2}`, ts + `{"a": map[string]interface{}{"#comment": map[string]interface{}{"#text": 1.5, "#seq": 0}}}`, ts + `{"a": map[string]interface{}{"#attr": map[string]interface{}{"x": "v"}, "#seq": 0}}`, ts + `{"a": map[string]interface{}{"#text": "head", "#seq": 0, "b": map[string]interface{}{"#seq": 1}}}`, ts + "(nil)", ts + "{}", ts + `{"k": "v"}`, ts + `{"": "x"}`, ts + `{"!k": "*"}`, ts + `{"a": map[string]interface{}{"k": "v"}}`}
 		}
 	case *types.Slice:
 		if isByte(u.Elem()) {
